@@ -563,9 +563,39 @@ def run(model, rep):
     # the digest is md5(user:realm:password) over the bytes of the *file's* encoding: each of the three text fields is converted with the
     # `encoding` argument (which HtdigestFile passes), never with a fixed or default one
     rule_digest_encoding(model, rep, "C16.m-digest-encoding")
+    rule_records_bytes(model, rep)
     from .shared import handler_site_filter
     from pv.handlers import HandlerTable
     only, used = handler_site_filter(model, HandlerTable(model), ("passlib.apache",), extra_names=("htdigest",))
     rep.extra["apache_handlers"] = used
     _c01.rule_d(model, _Renamed(rep, {"C01.d": "C16.l-hash-verify-wiring"}, "C16.x-", only=only))
     rep.minimum("C16.l-hash-verify-wiring", 10)
+
+
+def rule_records_bytes(model, rep):
+    """records hold the hash as bytes in the file's encoding (that is what a reload yields, and what the renderer can write for every
+    character): a text hash coming back from the context is encoded with `self.encoding` before it is stored"""
+    R = "C16.e-parse-render"
+    n = 0
+    unit = model.unit(AP)
+    for q, fn in unit.functions():
+        if not q.startswith(("HtpasswdFile.", "HtdigestFile.")):
+            continue
+        for st in walk_no_nested(fn):
+            stored = None
+            if isinstance(st, ast.Assign) and isinstance(st.targets[0], ast.Subscript) and ast.unparse(st.targets[0].value) == "self._records" and isinstance(st.value, ast.Name):
+                stored = st.value.id
+            if isinstance(st, ast.Call) and ast.unparse(st.func) == "self._set_record" and st.args and isinstance(st.args[-1], ast.Name):
+                stored = st.args[-1].id
+            if stored is None:
+                continue
+            n += 1
+            pos = (st.lineno, st.col_offset)
+            enc = [a for a in walk_no_nested(fn) if isinstance(a, ast.Assign) and ast.unparse(a.targets[0]) == stored and ast.unparse(a.value) == f"{stored}.encode(self.encoding)"
+                   and (a.lineno, a.col_offset) < pos]
+            rep.check(bool(enc), R, site(q) + " stored hash", f"{ast.unparse(st)[:70]}  # `{stored}` " + ("encoded with self.encoding" if enc else "stored as the context returned it (str)"),
+                      "a hash is brought to bytes in the file's encoding before it is stored in a record",
+                      witness="utf-8 file, default scheme plaintext, apr_md5_crypt deprecated: check_password('bob', '\\u043f\\u0430\\u0440\\u043e\\u043b\\u044c') upgrades the entry, stores a str, and the autosave "
+                              "raises UnicodeEncodeError('latin-1') after truncating the file to the entries before bob")
+    if n < 3:
+        rep.undecided(R, "<instance-count>", f"only {n} record stores found in HtpasswdFile / HtdigestFile, expected at least 3")
